@@ -3,6 +3,7 @@ package c11
 import (
 	"crypto/sha256"
 	"fmt"
+	"os"
 	"runtime"
 	"runtime/debug"
 	"sync"
@@ -251,6 +252,10 @@ func Run(c *verdict.Ctx) int {
 		}
 		c.Seed = w.Seed
 		runHistory(c, w.Index)
+		return c.Finish(0)
+	}
+	if os.Getenv("VERIF_C11_SIMCASE") != "" { // debug: one simulator case only
+		runSimStage(c)
 		return c.Finish(0)
 	}
 	n := c.N(400, 20000)
